@@ -5,8 +5,8 @@ from vlib import hexs, exc_kind, ilist
 
 PROP = "C13"
 TRUSTED = [
-    "Model/RRuleStr.lean is the model the theorems speak about; rrule.__str__, _rrulestr._parse_rfc_rrule, every _handle_* method, _parse_date_value, __call__ and the prefix of _parse_rfc are re-translated from source on every run (Generated/RRuleStrKernels.lean) and proved equal to it (gen_*_eq_model); only the part of _parse_rfc after the unfold block (fast path, line dispatch, set building) is a hand model tied by the rrs.parse correspondence alone (the implementation's constructor calls are recorded in-process)",
-    "hand-modelled primitives the translation rests on: _common.weekday.__repr__ / __call__ (weekdayRepr, weekdayCall), str.split/upper/strip/int for ASCII, strftime's %m %d %H %M %S as two-digit fields, '%04d'; parser.parse is a parameter of the translated _parse_date_value and its result is kept as text + options in _handle_UNTIL (C02)",
+    "Model/RRuleStr.lean is the model the theorems speak about; rrule.__str__, _rrulestr._parse_rfc, _parse_rfc_rrule, every _handle_* method, _parse_date_value and __call__ are re-translated from source on every run (Generated/RRuleStrKernels.lean) and proved equal to it (gen_*_eq_model): every method of _rrulestr is translated as a whole; the rrs.parse correspondence still records the implementation's constructor and parser.parse calls in-process and compares them with the model, and rrsgen.call answers every such request through the translation",
+    "hand-modelled primitives the translation rests on: _common.weekday.__repr__ / __call__ (weekdayRepr, weekdayCall), str.split/upper/strip/int for ASCII, strftime's %m %d %H %M %S as two-digit fields, '%04d'; parser.parse is a parameter of the translated _parse_date_value and its result is kept as text + options in _handle_UNTIL and for RDATE values (C02); a _parse_date_value call inside the dispatch loop is represented by its parameter check and one record per value (gen_parse_date_value_naive); rruleset(cache=) with its rrule/rdate/exrule/exdate calls is the record Parsed.set; lazy imports are skipped (first-use behaviour: fresh-interpreter stream)",
     "date values go through parser.parse in the real code (C02); the model covers only the compact form YYYYMMDDTHHMMSS[Z] that __str__ emits — other spellings are compared on the implementation only",
     "rrule(**kwargs) itself is C01's constructor; 'same kwargs => same occurrences' is determinism of C01's model",
     "TZID resolution (the pre-scan, the name table, the parameter loop of _parse_date_value, the zone attach) and the unfold loop are re-translated from source on every run (harness/translate_str.py -> Generated/RRuleStrKernels.lean) and tied to the hand model by gen_prefix_eq_model / gen_unfold_loop_eq_model / gen_dateParms_eq_model; the translation is run (ops rrsgen.*) against the very statements it was made from, compiled from the same AST nodes",
